@@ -56,7 +56,7 @@ if __name__ == "__main__":
                 bad += 1
                 print(f"UNSOUND? seed {path}: {res} {un}")
         for extra in sys.argv[1:]:
-            for path, res, un in ex.map(patch, sorted(glob.glob(os.path.join(extra, "patch_*.diff")))):
+            for path, res, un in ex.map(patch, sorted(glob.glob(os.path.join(os.path.abspath(extra), "patch_*.diff")))):
                 print(f"neutral {path}: {res} {un if res != 'equal' else ''}")
     print(f"{len(jobs)} corpus variants, {len(seeds)} seeds; {bad} behaviour-changing variants E8 could not tell from the reference")
     sys.exit(1 if bad else 0)
